@@ -146,6 +146,19 @@ def expected_for(tree, c):
                 out[par] = dict(dd, group=par)
             e = out
         return e
+    if c["input"] == "glob-types":
+        # "glob / * * * -type d ." followed by "glob / * * * -type f .": directories and regular files, every name of a multiply linked file
+        e = views.expect_from_tree(tree, d, keep_time=False, set_uid=su, set_gid=sg, keep_xattr=False, hard_links=True, root_from_defaults=True)
+        return {p_: x for p_, x in e.items() if x["type"] in ("dir", "file")}
+    if c["input"] == "glob-dirs":
+        # every non-directory has its own pack file line (directories are created implicitly); a final
+        # "glob / * * * -type d -keeptime ." then supplies the attributes of the directories from the scanned tree
+        e = views.expect_from_tree(tree, d, keep_time=False, set_uid=su, set_gid=sg, keep_xattr=False, hard_links=True, root_from_defaults=True)
+        ek = views.expect_from_tree(tree, d, keep_time=True, set_uid=su, set_gid=sg, keep_xattr=False, hard_links=True, root_from_defaults=True)
+        for p_, x in e.items():
+            if p_ and x["type"] == "dir":
+                x["mtime"] = ek[p_]["mtime"]
+        return e
     # pack file: the root line sets the root; no times; xattrs through -A
     e = views.expect_from_tree(tree, d, keep_time=False, set_uid=su, set_gid=sg, keep_xattr=c.get("xattr_file", False),
                                hard_links=True, root_from_defaults=False)
@@ -181,6 +194,22 @@ def run_pack(binaries, tree, c, work, oc, env_extra=None, timeout=600, stack_kb=
         line += b" .\n"
         with open(pf, "wb") as f:
             f.write(line)
+        args += ["-F", pf, "-D", root]
+    elif c["input"] == "glob-types":
+        root = os.path.join(work, "in")
+        gentree.materialise_dir(tree, root)
+        pf = os.path.join(work, "globtypes.txt")
+        with open(pf, "wb") as f:
+            f.write(b"glob / * * * -type d -- .\nglob / * * * -type f -- .\n")
+        args += ["-F", pf, "-D", root]
+    elif c["input"] == "glob-dirs":
+        root = os.path.join(work, "in")
+        gentree.materialise_dir(tree, root)
+        nd = {p_: n_ for p_, n_ in tree.items() if p_ == b"" or n_.type != "dir"}
+        lines = gentree.pack_file_lines(nd, {p_: p_ for p_, n_ in nd.items() if n_.type == "file" and n_.link_to is None}, root_line=False)
+        pf = os.path.join(work, "globdirs.txt")
+        with open(pf, "wb") as f:
+            f.write(lines + b"glob / * * * -type d -keeptime .\n")
         args += ["-F", pf, "-D", root]
     elif c["input"] == "dir":
         root = os.path.join(work, "in")
